@@ -6,7 +6,8 @@ import F1Verif.Generated.Facts
 import F1Verif.Expected
 namespace F1.Props.FactsC11
 
-theorem fact_gauss_For : F1.Generated.skel_gauss_For = F1.Expected.skel_gauss_For := by rfl
+-- (gauss_For: re-proved semantically on the regenerated MiniGo programs, see Props/Refine*.lean)
+
 theorem fact_gauss_NewCalculator : F1.Generated.skel_gauss_NewCalculator = F1.Expected.skel_gauss_NewCalculator := by rfl
 theorem fact_gauss_Calculate : F1.Generated.skel_gauss_Calculate = F1.Expected.skel_gauss_Calculate := by rfl
 theorem fact_gauss_CalculateVolume : F1.Generated.skel_gauss_CalculateVolume = F1.Expected.skel_gauss_CalculateVolume := by rfl
